@@ -131,6 +131,23 @@ func verifObserveStr(label string, s string) {
 	verifObserved = append(verifObserved, fmt.Sprintf("%s=%x", label, s))
 }
 
+// verifEmit*: values compared between the two programs of a dual (translation validation) run.
+func verifEmitBytes(label string, b []byte) {
+	verifObserved = append(verifObserved, fmt.Sprintf("emit:%s=%x", label, b))
+}
+
+func verifEmitU64(label string, v uint64) {
+	verifObserved = append(verifObserved, fmt.Sprintf("emit:%s=%d", label, v))
+}
+
+func verifEmitBool(label string, v bool) {
+	x := 0
+	if v {
+		x = 1
+	}
+	verifObserved = append(verifObserved, fmt.Sprintf("emit:%s=%d", label, x))
+}
+
 // Non-short-circuit boolean connectives (no control-flow fork in the engine).
 func vAnd(a, b bool) bool { return a && b }
 func vOr(a, b bool) bool  { return a || b }
